@@ -132,25 +132,25 @@ CcrWith(ccr, h, n, z, v, c) ==
 (***************************************************************************)
 VBit(v, i) == IF i < 16 THEN Bit(v[2], i) ELSE Bit(v[1], i - 16)
 Maj(x, y, z) == IF x + y + z >= 2 THEN 1 ELSE 0
-(* carry INTO bit i when adding a + b + cin *)
-RECURSIVE CarryIn(_, _, _, _)
-CarryIn(a, b, cin, i) ==
-  IF i = 0 THEN cin ELSE Maj(VBit(a, i - 1), VBit(b, i - 1), CarryIn(a, b, cin, i - 1))
-RippleSumBit(a, b, cin, i) == (VBit(a, i) + VBit(b, i) + CarryIn(a, b, cin, i)) % 2
-(* complement of b at size sz (for subtraction a + ~b + 1) *)
+(* carries of a + b + cin: cy[i] = carry INTO bit i (a recursive FUNCTION, so TLC computes each entry once) *)
+Carries(a, b, cin, w) ==
+  LET cy[i \in 0..w] == IF i = 0 THEN cin ELSE Maj(VBit(a, i - 1), VBit(b, i - 1), cy[i - 1])
+  IN cy
 RippleAdd(sz, a, b, cin) ==
   LET w == 8 * sz
-  IN [ bits |-> [i \in 0..(w - 1) |-> RippleSumBit(a, b, cin, i)],
-       c |-> CarryIn(a, b, cin, w),
-       h |-> CarryIn(a, b, cin, w - 4),
-       v |-> (CarryIn(a, b, cin, w) + CarryIn(a, b, cin, w - 1)) % 2 ]
+      cy == Carries(a, b, cin, w)
+  IN [ bits |-> [i \in 0..(w - 1) |-> (VBit(a, i) + VBit(b, i) + cy[i]) % 2],
+       c |-> cy[w],
+       h |-> cy[w - 4],
+       v |-> (cy[w] + cy[w - 1]) % 2 ]
+(* subtraction as a + ~b + (1 - bin); borrow flags are the complemented carries *)
 RippleSub(sz, a, b, bin) ==
   LET w  == 8 * sz
       nb == NotV(sz, b)
-      cin == 1 - bin
-  IN [ bits |-> [i \in 0..(w - 1) |-> RippleSumBit(a, nb, cin, i)],
-       c |-> 1 - CarryIn(a, nb, cin, w),
-       h |-> 1 - CarryIn(a, nb, cin, w - 4),
-       v |-> (CarryIn(a, nb, cin, w) + CarryIn(a, nb, cin, w - 1)) % 2 ]
+      cy == Carries(a, nb, 1 - bin, w)
+  IN [ bits |-> [i \in 0..(w - 1) |-> (VBit(a, i) + VBit(nb, i) + cy[i]) % 2],
+       c |-> 1 - cy[w],
+       h |-> 1 - cy[w - 4],
+       v |-> (cy[w] + cy[w - 1]) % 2 ]
 BitsOf(sz, v) == [i \in 0..(8 * sz - 1) |-> VBit(v, i)]
 =============================================================================
